@@ -112,6 +112,11 @@ theorem setTerms_keeps {w : World} (i : Nat) (f : Nat → TermObj → TermObj) (
     · exact Nat.le_refl _
     · exact fun _ _ => rfl
 
+theorem assignTerms_keeps {w : World} (i e : Nat) (h : Inv w) : Keeps [i] w (assignTerms w i e) :=
+  Keeps.of_frame h (assignTerms_inv i e h) (assignTerms_frame w i e) (fun j _ hj => assignTerms_models w i e j hj)
+    (by rw [assignTerms_length]; exact Nat.le_refl _) (by rw [assignTerms_exprs]; exact Nat.le_refl _)
+    (fun _ _ => by rw [assignTerms_exprs]) (fun _ h => nomatch h) (fun _ h => nomatch h) (fun _ h => nomatch h)
+
 theorem setModel_exprs (w : World) (i c : Nat) : (setModel w i c).exprs = w.exprs := by
   unfold setModel; split <;> rfl
 
